@@ -350,6 +350,69 @@ func c19MoveWhileAsked(bound int) vh.Unit {
 	}}
 }
 
+// the host's old connection is noticed to be gone while the host registers again from a new
+// address (agents re-dial at once): afterwards the stored and advertised address is the new
+// registration's, and the host counts as the live host it is
+func c19CloseVsReregister(bound int) vh.Unit {
+	name := "old-connection-closes-vs-reregistration"
+	ids := vh.Identities()
+	host, client := ids[1], ids[0]
+	var pw *vh.PoolWorld
+	var regErr, closeErr error
+	body := func() {
+		vsched.ResetClock(0)
+		pw = vh.NewPoolWorld(vh.PoolConfig{Driver: vh.Memory, NoManager: true})
+		pw.Raw.SetNode(store.Node{ID: store.NodeID(client.NodeID), Kind: "geth", LastSeen: vsched.Now()})
+		reg := func(conn, src string, n int64) error {
+			fh := pw.Host(conn)
+			fh.Addr = src
+			req := pool.ConnectRequest{NodeInfo: ethnode.UserAgent{Kind: ethnode.Geth, IsFullNode: true}}
+			nonce := vsched.Now().UnixNano() + n
+			_, err := pw.Pool.Connect(vh.CtxWith(vh.HostWithAddr{FakeHost: fh}), host.SignNode("vipnode_connect", nonce, req), host.NodeID, nonce, req)
+			return err
+		}
+		if err := reg("old", "192.0.2.1:5555", 1); err != nil {
+			panic(err)
+		}
+		vsched.Advance(10 * time.Second)
+		old := vh.HostWithAddr{FakeHost: pw.Host("old")}
+		vh.Par([]string{"close-old", "re-register"},
+			func() { closeErr = pw.Pool.CloseRemote(old) },
+			func() { regErr = reg("new", "198.51.100.9:6666", 2) })
+	}
+	return vh.Unit{Name: name, Run: func(u *vh.U) {
+		vh.RunDFS(u, vh.DFSSpec{
+			Name: name, Bound: bound,
+			Run:  vsched.Options{YieldFiles: []string{"service.go", "memory.go"}, Drain: true},
+			Body: body,
+			Obs:  func(s *vsched.Sched) string { return fmt.Sprint(regErr == nil, closeErr == nil) },
+			Check: func(s *vsched.Sched) (string, string) {
+				if regErr != nil {
+					return "uri/concurrent/registration-failed", regErr.Error()
+				}
+				// the host keeps checking in over its new connection
+				ureq := pool.UpdateRequest{PeerInfo: []ethnode.PeerInfo{}}
+				unonce := vsched.Base().UnixNano() + int64(time.Hour)
+				if _, err := pw.Pool.Update(vh.CtxWith(vh.HostWithAddr{FakeHost: pw.Host("new")}), host.SignNode("vipnode_update", unonce, ureq), host.NodeID, unonce, ureq); err != nil {
+					return "uri/host-keep-alive-refused", err.Error()
+				}
+				n, err := pw.Raw.GetNode(store.NodeID(host.NodeID))
+				if err != nil {
+					return "uri/concurrent/registration-failed", err.Error()
+				}
+				if !strings.Contains(n.URI, "@198.51.100.9:30303") {
+					return "uri/stored-address-not-the-latest-registration's", fmt.Sprintf("the host registered from 192.0.2.1, then - while that connection was being cleaned up - again from 198.51.100.9: stored %s", strings.Replace(n.URI, host.NodeID, "<id>", 1))
+				}
+				resp, perr := pw.Peer(context.Background(), client, 1, "")
+				if perr != nil || resp == nil || len(resp.Peers) != 1 || resp.Peers[0].URI != n.URI {
+					return "uri/handed-out-address-differs", fmt.Sprintf("after the re-registration: vipnode_peer returned %+v err=%v (stored %s)", resp, perr, strings.Replace(n.URI, host.NodeID, "<id>", 1))
+				}
+				return "", ""
+			},
+		})
+	}}
+}
+
 // a host registers, then registers again: what is stored and handed out afterwards is what the
 // *second* registration says (its override, or by default the address it came from this time),
 // whatever the first one left behind
@@ -587,7 +650,7 @@ func init() {
 			if tier == "thorough" {
 				b = 3
 			}
-			us = append(us, c19ConcurrentHosts(2, b), c19MoveWhileAsked(b), c19Sequences(), c19PipeTransport(), c19BinaryHeaders())
+			us = append(us, c19ConcurrentHosts(2, b), c19MoveWhileAsked(b), c19Sequences(), c19CloseVsReregister(b), c19PipeTransport(), c19BinaryHeaders())
 			if tier == "thorough" {
 				us = append(us, c19ConcurrentHosts(3, 2))
 			}
